@@ -20,7 +20,7 @@ while IFS= read -r line; do
       echo "  [applied=$applied] $cmd -> exit $rc"
       if [ $applied -eq 0 ]; then [ $rc -eq 0 ] && okclean=${okclean}P || okclean=${okclean}F; else [ $rc -ne 0 ] && failmut=${failmut}F || failmut=${failmut}P; fi ;;
   esac
-done < <(grep -E '^[[:space:]>$`(]*(cp |rm |mv |mkdir |git apply|git checkout|git stash|go test|go run|ulimit.*go |timeout.*go |\./demo[0-9]/run.sh)' demo$I/README.md | sed -e 's#/tmp/mut/C[0-9]*#'$W'#g')
+done < <(grep -E '^[[:space:]>$`(]*(cp |rm |mv |mkdir |git apply|git checkout|git stash|go test|go run|ulimit.*go |timeout.*go |\./demo[0-9]/run.sh)' demo$I/README.md | sed -E -e 's#/tmp/mut2?/C[0-9]+#'$W'#g')
 cd /; git -C /repo worktree remove --force $W
 echo "  clean-run results: ${okclean:-none}   mutated-run results: ${failmut:-none}"
 case "$okclean" in *F*|"") echo "DEMO NOT CONFIRMED (clean run)"; exit 1;; esac
